@@ -9,7 +9,8 @@ import sys
 import time
 
 VERIF = os.path.dirname(os.path.dirname(os.path.abspath(__file__)))
-REPO = os.environ.get('CGV_REPO', '/repo')
+# the tree under verification: /repo, or a snapshot of it (vp run --with-repo exports VP_RUN_REPO)
+REPO = os.environ.get('CGV_REPO') or os.environ.get('VP_RUN_REPO') or '/repo'
 BUILD = os.path.join(VERIF, '.build')
 HARNESS_TARGET = os.path.join(BUILD, 'harness')
 REPO_TARGET = os.path.join(BUILD, 'repo')
@@ -40,9 +41,23 @@ def ensure_built(verbose=True):
     fcntl.flock(lock, fcntl.LOCK_EX)
     try:
         t0 = time.time()
+        manifest = os.path.join(VERIF, 'harness', 'Cargo.toml')
+        if os.path.realpath(REPO) != '/repo':
+            # the harness names /repo as a path dependency: for another tree, build from a copy of the manifest that names that tree
+            alt = os.path.join(BUILD, 'harness-alt')
+            os.makedirs(alt, exist_ok=True)
+            text = open(manifest).read().replace('path = "/repo"', 'path = "%s"' % os.path.realpath(REPO))
+            mpath = os.path.join(alt, 'Cargo.toml')
+            if not os.path.exists(mpath) or open(mpath).read() != text:
+                open(mpath, 'w').write(text)
+            import shutil
+            shutil.copyfile(os.path.join(VERIF, 'harness', 'Cargo.lock'), os.path.join(alt, 'Cargo.lock'))
+            link = os.path.join(alt, 'src')
+            if not os.path.islink(link):
+                os.symlink(os.path.join(VERIF, 'harness', 'src'), link)
+            manifest = mpath
         for what, cmd, tgt in (
-            ('harness', ['cargo', 'build', '--offline', '--manifest-path',
-                         os.path.join(VERIF, 'harness', 'Cargo.toml')], HARNESS_TARGET),
+            ('harness', ['cargo', 'build', '--offline', '--manifest-path', manifest], HARNESS_TARGET),
             ('complgen', ['cargo', 'build', '--offline', '--manifest-path',
                           os.path.join(REPO, 'Cargo.toml'), '--bin', 'complgen'], REPO_TARGET),
         ):
